@@ -2,15 +2,15 @@
 # tools/try_all.sh <prop>...  : run every seed under /tmp/seedout/<prop>/m* against its own property's check
 mkdir -p /tmp/seedres
 for p in "$@"; do
-  for d in /tmp/seedout/$p/m*; do
+  for d in ${SEEDSRC:-/tmp/seedout}/$p/m*; do
     [ -f $d/patch.diff ] || continue
     n=$(basename $d)
-    /verif/tools/try_seed.py $d $p > /tmp/seedres/$p-$n.json 2>/tmp/seedres/$p-$n.err
+    /verif/tools/try_seed.py $d $p > ${SEEDRES:-/tmp/seedres}/$p-$n.json 2>${SEEDRES:-/tmp/seedres}/$p-$n.err
     python3 - $p $n <<'PY'
 import json,sys
 p,n=sys.argv[1:]
 try:
-    r=json.load(open(f'/tmp/seedres/{p}-{n}.json'))
+    r=json.load(open(f'${SEEDRES:-/tmp/seedres}/{p}-{n}.json'))
     c=r['checks'].get(p,{})
     print(p,n,'tests_pass=',r.get('tests_pass'),'demo_ok=',r.get('demo_ok'),'rc=',c.get('rc'),'keys=',c.get('keys'),c.get('inconclusive'))
 except Exception as e:
